@@ -18,6 +18,7 @@ Template nodes (tuples):
 """
 import re
 from mirlib import *
+from mirlib import _edge_conds
 
 PUNCT = {
     'push_add': '+', 'push_add_eq': '+=', 'push_and': '&', 'push_and_and': '&&', 'push_and_eq': '&=', 'push_at': '@', 'push_bang': '!',
@@ -113,7 +114,13 @@ class Extractor:
             if re.search(r'TokenStreamExt::append_all|Extend(<.*>>)?::extend|TokenStreamExt::append', gp) and t['args']:
                 s = self._stream_arg(f, t['args'][0])
                 if s is not None:
-                    events.setdefault(s, []).append((rpo[bi], bi, 'opaque', short(gp)))
+                    a1 = t['args'][1] if len(t['args']) > 1 else None
+                    ty1 = ((a1 or {}).get('place') or {}).get('ty') or (a1 or {}).get('ty') or ''
+                    if a1 is not None and re.sub(r"^&('\w+ )?", '', ty1) == TS:
+                        # appending one whole token stream: the same as interpolating it
+                        events.setdefault(s, []).append((rpo[bi], bi, 'hole', (f.expr_of_operand(a1), TS)))
+                    else:
+                        events.setdefault(s, []).append((rpo[bi], bi, 'opaque', short(gp)))
                 continue
             # any other call that is handed a mutable reference to a stream may append to it: not seen through (fail closed)
             for a_ in t['args']:
@@ -153,11 +160,30 @@ class Extractor:
             return best
         nodes = []
         i = 0
+
+        def conditional(bi):
+            """conditions under which an event at block bi happens, beyond those that already hold where the stream was created
+            (None: it happens on every path from the creation to a normal return)"""
+            if home is None:
+                return None
+            from guards import success_exits, unreachable_without
+            exits_ = [x for x in success_exits(f) if x['block'] in f.reach(home)]
+            if exits_ and all(unreachable_without(f, x['block'], {bi}, src=home) for x in exits_):
+                return None
+            cs = [(c_, lab) for b_, c_, lab in _edge_conds(f, bi) if not f.dominates(b_, home) or b_ == home]
+            cs = [(c_, lab) for c_, lab in cs]
+            if not cs:
+                return ('unknown-condition',)
+            from guards import norm_pred
+            ps = [norm_pred(c_, lab) for c_, lab in cs]
+            return ps[0] if len(ps) == 1 else ('and', ps)
         while i < len(evs):
             (_, bi, kind, payload) = evs[i]
             L = loop_of(bi)
             if L is None:
-                nodes.append(self._node(f, s, kind, payload, events, created, loops, out))
+                n_ = self._node(f, s, kind, payload, events, created, loops, out)
+                cnd = conditional(bi)
+                nodes.append(n_ if cnd is None else ('opt', cnd, [n_], None))
                 i += 1
                 continue
             # gather all events of this loop
@@ -166,7 +192,9 @@ class Extractor:
             while j < len(evs) and evs[j][1] in L[1]:
                 body.append(evs[j])
                 j += 1
-            nodes.append(self._rep(f, s, L, body, events, created, loops, out))
+            rep_ = self._rep(f, s, L, body, events, created, loops, out)
+            cnd = conditional(L[0])
+            nodes.append(rep_ if cnd is None else ('opt', cnd, [rep_], None))
             i = j
         return nodes
 
@@ -214,7 +242,10 @@ class Extractor:
                 for idx, (src, nx) in enumerate(srcs):
                     if any(y == nx for y in walk(x)):
                         k = idx
-                if k is not None:
+                # a token stream that is *computed from* the element in the loop body (`ts.extend(quote!{.. #x ..})`) is
+                # not the element itself: it stays a hole and is resolved to its own template
+                computed = n[2].replace('&', '').strip() == TS and k is not None and not any(m.startswith('quote::') for m in (f.term(bi)['span'].get('macros') or []))
+                if k is not None and not computed:
                     n = ('elem', k, n[2])
             items.append(n)
         return ('rep', [s_[0] for s_ in srcs], sep, items)
@@ -481,6 +512,8 @@ class Resolver:
                     else:
                         items.extend(self.resolve_nodes(f, [x], depth + 1))
                 out.append(('rep', srcs, n[2], items, elems))
+            elif k == 'opt':
+                out.append(('opt', n[1], self.resolve_nodes(f, n[2], depth + 1)) + tuple(n[3:]))
             else:
                 out.append(n)
         return out
